@@ -12,7 +12,7 @@ K=/verif/seeded/$P/$R; mkdir -p $K
 cp $S/patch.diff $S/demo.diff $K/
 python3 - "$S/meta.json" "$K/meta.json" "$P" "$conf" "$res" "$R" <<'PY'
 import json,sys
-m=json.load(open(sys.argv[1])); m['property']=sys.argv[3]; m['round']={'c':3,'d':4,'e':5}.get(sys.argv[6],sys.argv[6])
+m=json.load(open(sys.argv[1])); m['property']=sys.argv[3]; m['round']={'c':3,'d':4,'e':5,'f':6}.get(sys.argv[6],sys.argv[6])
 m['confirmation_log']=sys.argv[4][-1500:]
 m['check_result']=sys.argv[5][-1500:]
 json.dump(m,open(sys.argv[2],'w'),indent=1)
